@@ -917,6 +917,8 @@ def gen_toml_inline(rng, depth, null_p):
             return None
         if k < 0.25:
             return rng.random() < 0.5
+        if k < 0.3:
+            return rng.choice(TOML_BOUNDARY)
         if k < 0.55:
             return gen_num(rng)
         return gen_h_str(rng)
@@ -1019,7 +1021,15 @@ H_TOML_FIXED = [
     Obj([(False, "a", None)]), Obj([(False, "a", Obj([(False, "b", [1.0, None])]))]), Obj([(False, "a", [Obj([(False, "b", None)])])]),
     Obj([(True, "h", None), (False, "a", 1.0)]), Obj([(False, "a", [Obj([(True, "h", None)])]), (True, "t", Obj([]))]),
     [], None, 1.0, "s", [Obj([])], True,
+    # the 64-bit boundary of TOML integers: magnitudes >= 2^63 are written as floats (`digits.0`)
+    Obj([(False, "a", 2.0 ** 63), (False, "b", -2.0 ** 63), (False, "c", 9223372036854774784.0), (False, "d", -9223372036854774784.0),
+         (False, "e", 2.0 ** 63 + 2048), (False, "f", 1e19), (False, "g", -1e300), (False, "h", 1.7976931348623157e308),
+         (False, "i", float(2 ** 53)), (False, "j", 9.2e18), (False, "k", 9.3e18), (False, "l", 1e18), (False, "m", 18446744073709551616.0)]),
+    Obj([(False, "t", Obj([(False, "x", [2.0 ** 63, [-1e19, Obj([(False, "y", 1e22)])]]), (False, "u", Obj([(False, "z", -2.0 ** 64)]))])),
+         (False, "a", [Obj([(False, "n", 1e20)]), Obj([(False, "n", 9223372036854774784.0)])])]),
 ]
+TOML_BOUNDARY = [2.0 ** 63, -2.0 ** 63, 9223372036854774784.0, -9223372036854774784.0, 2.0 ** 63 + 2048, 1e19, 1e20, -1e21, 9.2e18,
+                 9.3e18, 2.0 ** 64, 1e300, -1.7976931348623157e308, 9223372036854775000.0, 9223372036854776000.0]
 
 
 def h_line(impl_line):
